@@ -275,7 +275,14 @@ pub fn run_batch(scenarios: &[Box<dyn Scenario>], seed: u64, tier: Tier, stats: 
                             WD_RUN[w % 64].store(i, Ordering::Relaxed);
                             WD_START_MS[w % 64].store(now_ms(), Ordering::Relaxed);
                             let mut out = RunOut::default();
-                            let plan = sc.run(seed, tier, i, &mut out);
+                            // a panic outside `guard` is a bug of the harness itself, never a finding
+                            let plan = match std::panic::catch_unwind(std::panic::AssertUnwindSafe(|| sc.run(seed, tier, i, &mut out))) {
+                                Ok(p) => p,
+                                Err(_) => {
+                                    eprintln!("harness error: the simulator itself panicked in run {} of scenario {} (seed {}); this is not a verdict on the code under test", i, sc.name(), seed);
+                                    std::process::exit(2);
+                                }
+                            };
                             agg.digests.push(out.digest.finish());
                             agg.events += out.events;
                             for v in std::mem::take(&mut out.viols) {
